@@ -222,6 +222,160 @@ def bracket(R, ctx):
     R.meta["long_bracket_raw_bytes"] = "%d bytes: %s" % (len(raw), "".join(chr(b) if 0x21 <= b <= 0x7E else "\\x%02x" % b for b in raw))
 
 
+def data_values(R, ctx, rid="C14.data"):
+    """The serde -> Lua expression serializer driven with every document skeleton of a small grammar (finite-domain evaluation)."""
+    from .. import peval
+    from ..peval import Enum, Struct, UNKNOWN, some
+    lib = ctx.lib
+    R.rule(rid, "process::expression_serializer::to_expression, driven through serde's data model (serialize_unit / bool / i64 / f64 / str / seq / "
+                "map) for every document skeleton of depth <= 2 built from {null, true, false, 3, -2, 'text', 'two words'} and the keys "
+                "{plain, 'two words', 'end', '1x', ''}: the Lua expression built denotes the same value -- a sequence becomes a table with "
+                "the same number of positional entries in the same order (a `null` keeps its place, so later elements keep their index), a "
+                "map becomes one entry per key with that key's exact text (bare name only for identifiers), scalars keep their value")
+    fn = lib.fn("process::expression_serializer::to_expression")
+    if not R.require(rid, "anchor", fn is not None, "", "to_expression not found"):
+        return
+    SER, SEQ, MAP = "serde_core::ser::Serializer", "serde_core::ser::SerializeSeq", "serde_core::ser::SerializeMap"
+
+    def is_ok(r):
+        return isinstance(r, Enum) and r.variant == "Ok"
+
+    def drive(pe, ser, v):
+        def cm(tr, name, recv, *a):
+            return pe.call_method(tr, name, [recv] + list(a))
+        if v is None:
+            return cm(SER, "serialize_unit", ser)
+        if isinstance(v, bool):
+            return cm(SER, "serialize_bool", ser, v)
+        if isinstance(v, int):
+            return cm(SER, "serialize_i64", ser, v)
+        if isinstance(v, float):
+            return cm(SER, "serialize_f64", ser, v)
+        if isinstance(v, str):
+            return cm(SER, "serialize_str", ser, v)
+        if isinstance(v, list):
+            r = cm(SER, "serialize_seq", ser, some(len(v)))
+            if not is_ok(r):
+                return r
+            s2 = r.fields["0"]
+            for x in v:
+                r2 = cm(SEQ, "serialize_element", s2, Struct("#Doc", {"v": x}))
+                if not is_ok(r2):
+                    return r2
+            return cm(SEQ, "end", s2)
+        if isinstance(v, dict):
+            r = cm(SER, "serialize_map", ser, some(len(v)))
+            if not is_ok(r):
+                return r
+            s2 = r.fields["0"]
+            for k, x in v.items():
+                for meth, val in (("serialize_key", k), ("serialize_value", x)):
+                    r2 = cm(MAP, meth, s2, Struct("#Doc", {"v": val}))
+                    if not is_ok(r2):
+                        return r2
+            return cm(MAP, "end", s2)
+        return UNKNOWN
+
+    def hook(pe, path, fname, args, node):
+        if fname == "serialize" and len(args) == 2 and isinstance(args[0], Struct) and args[0].adt == "#Doc":
+            return drive(pe, args[1], args[0].fields["v"])
+        return NotImplemented
+
+    def text_of(x):
+        """bytes held by a StringExpression / the name of an Identifier"""
+        if isinstance(x, str):
+            return x
+        if isinstance(x, peval.Iter):
+            x = x.items
+        if isinstance(x, list) and all(isinstance(b, int) for b in x):
+            return bytes(x).decode("utf-8", "replace")
+        if isinstance(x, (Struct, Enum)):
+            for f in ("value", "name", "0"):
+                if f in x.fields:
+                    t = text_of(x.fields[f])
+                    if t is not None:
+                        return t
+        return None
+
+    def denote(e):
+        """Independent reading of the Lua data expression built: python value ('?' when not understood)."""
+        if not isinstance(e, Enum) or e.adt != EXPR_T:
+            return "?"
+        v, p0 = e.variant, e.fields.get("0")
+        if v == "Nil":
+            return None
+        if v in ("True", "False"):
+            return v == "True"
+        if v == "String":
+            return text_of(p0)
+        if v == "Number":
+            num = p0.fields.get("0") if isinstance(p0, Enum) else p0
+            f = num.fields.get("float", num.fields.get("value")) if isinstance(num, Struct) else None
+            return f if isinstance(f, (int, float)) and not isinstance(f, bool) else "?"
+        if v == "Unary" and isinstance(p0, Struct) and isinstance(p0.fields.get("operator"), Enum) and p0.fields["operator"].variant == "Minus":
+            inner = denote(p0.fields.get("expression"))
+            return -inner if isinstance(inner, (int, float)) else "?"
+        if v == "Parenthese" and isinstance(p0, Struct):
+            return denote(p0.fields.get("expression"))
+        if v == "Table" and isinstance(p0, Struct) and isinstance(p0.fields.get("entries"), list):
+            seq, keyed = [], {}
+            for ent in p0.fields["entries"]:
+                if not isinstance(ent, Enum):
+                    return "?"
+                body = ent.fields.get("0")
+                if ent.variant == "Value":
+                    seq.append(denote(body))
+                elif ent.variant == "Field" and isinstance(body, Struct):
+                    name = text_of(body.fields.get("field"))
+                    if name is None or not name.isidentifier() or name in LUA_RESERVED:
+                        return "? (bare key `%s`)" % name
+                    keyed[name] = denote(body.fields.get("value"))
+                elif ent.variant == "Index" and isinstance(body, Struct):
+                    keyed[denote(body.fields.get("key"))] = denote(body.fields.get("value"))
+                else:
+                    return "?"
+            if seq and keyed:
+                return ("mixed", seq, keyed)
+            return keyed if keyed else seq
+        return "?"
+    scalars = [None, True, False, 3, -2, "text", "two words"]
+    keys = ["plain", "two words", "end", "1x", ""]
+    docs = list(scalars) + [[], {}]
+    docs += [[a, b] for a in (None, 3, "text") for b in (None, True, "two words")] + [[1, None, 3], [None, None, 7], [[1, None], [None, 2]], [{"plain": None}, None, {"end": 1}]]
+    docs += [{k: v} for k in keys for v in (None, 3, "text", [None, 1])] + [{"plain": {"end": [None, 2]}}, {"a": 1, "b": 2, "two words": 3}]
+    bad, unk = [], []
+    for doc in docs:
+        pe = peval.PEval(lib, ctx.an, hook)
+        try:
+            r = pe.call_fn(fn, [Struct("#Doc", {"v": doc})])
+        except peval.OutOfFuel:
+            r = UNKNOWN
+        if not is_ok(r) or pe.unknown_reasons:
+            unk.append((doc, pe.unknown_reasons[:1] or [repr(r)[:80]]))
+            continue
+        got = denote(r.fields["0"])
+
+        def same(a, b):
+            if isinstance(a, dict) and isinstance(b, dict):
+                # a key whose value is null may be omitted from a Lua table constructor (it denotes the same table)
+                ka = {k for k, v in a.items() if v is not None}
+                kb = {k for k, v in b.items() if v is not None}
+                return ka == kb and all(same(a[k], b[k]) for k in ka)
+            if isinstance(a, list) and isinstance(b, list):
+                return len(a) == len(b) and all(same(x, y) for x, y in zip(a, b))
+            if a in ([], {}) and b in ([], {}):
+                return True
+            return type(a) is type(b) and a == b or (isinstance(a, (int, float)) and isinstance(b, (int, float)) and not isinstance(a, bool) and not isinstance(b, bool) and a == b)
+        if not same(doc, got):
+            bad.append("%r is written as a Lua expression denoting %r" % (doc, got))
+    R.ob(rid, "to_expression|established", not unk, ctx.where(fn), "all %d documents evaluate" % len(docs) if not unk else "not established for %r %s" % unk[0])
+    R.ob(rid, "to_expression|same-value", not bad, ctx.where(fn), "all %d documents denote the same value" % len(docs) if not bad else "%s (%d documents differ)" % (bad[0], len(bad)))
+
+
+EXPR_T = "nodes::expressions::Expression"
+LUA_RESERVED = set(c09.LUA_KEYWORDS)
+
+
 def run(R, ctx):
     R.explanation = (
         "Guard-before-act rule on every place where a run-time string becomes a table key or field name, the keyword table of "
@@ -234,3 +388,4 @@ def run(R, ctx):
     total(R, ctx)
     casts(R, ctx)
     bracket(R, ctx)
+    data_values(R, ctx)
